@@ -85,3 +85,51 @@ Proof.
   split; [apply Forall_forall; intros b Hb; vm_compute in Hb; repeat (destruct Hb as [<-|Hb]; [lia|]); destruct Hb|].
   split; [exact e6_senders_ok|]. split; [vm_compute; lia|]. vm_compute. split; reflexivity.
 Qed.
+
+(* ---- C15: a channel over (stream 4, mode); three correct nodes whose data sources return 5, one sender claims 7 ---- *)
+Definition m_def : chandef := {| cd_fmt := 1; cd_streams := [(4, 2)]; cd_opts := [] |}.
+Definition m_p2 := get (outcome_step nv_h nv_cf 2 p1 (nv_round (10 * s) {[ 9 := m_def ]} [] false NoAttest (9 * s))).
+Definition m_prev_bytes : list Z := match encode_outcome 1 m_p2 with Ok b => b | _ => [] end.
+Definition m_inp : obs_inp :=
+  {| oi_now := 12 * s; oi_att := Ok []; oi_retire := Ok false; oi_expected := {[ 9 := m_def ]};
+     oi_vals := {[ 4 := SDec (mkdec 5 0) ]}; oi_fails := false |}.
+Definition m_correct : lsender := LCorrect m_inp [] [] [(4, SDec (mkdec 5 0))].
+Definition m_faulty : lsender :=
+  LFaulty (encode_observation [] [] [(4, SDec (mkdec 7 0))]
+            {| ro_att := []; ro_retire := false; ro_ts := 12 * s; ro_removes := []; ro_updates := ∅; ro_values := {[ 4 := SDec (mkdec 7 0) ]} |}).
+Definition m_ss : list lsender := [m_correct; m_faulty; m_correct; m_correct].
+Definition m_tagged := tagged (fun _ => None) (fun _ => true) nv_cf 3 m_prev_bytes m_ss.
+
+Lemma m_senders_ok : lsenders_ok (fun _ => true) nv_cf 3 m_prev_bytes m_ss.
+Proof.
+  intros i rms ups vals Hin.
+  assert (Hcases : i = m_inp /\ rms = [] /\ ups = [] /\ vals = [(4, SDec (mkdec 5 0))]).
+  { destruct Hin as [H|[H|[H|[H|[]]]]]; try discriminate; inversion H; subst; auto. }
+  destruct Hcases as (-> & -> & -> & ->). split.
+  - unfold inputs_wf, m_inp. cbn [oi_now oi_expected oi_vals]. split; [unfold u64_ok; vm_compute; split; [discriminate|reflexivity]|]. split.
+    + apply map_Forall_singleton. split; [unfold u32_ok; lia|]. unfold def_wf, m_def. cbn [cd_fmt cd_streams]. split; [unfold u32_ok; lia|].
+      constructor; [|constructor]. unfold stream_wf. cbn [fst snd]. unfold u32_ok. lia.
+    + apply map_Forall_singleton. split; [unfold u32_ok; lia|]. split; [|cbn; lia]. cbn [sval_ok]. unfold exp_ok. cbn. lia.
+  - intros ro Ho.
+    assert (Hro : ro = {| ro_att := []; ro_retire := false; ro_ts := 12 * s; ro_removes := []; ro_updates := ∅;
+                          ro_values := {[ 4 := SDec (mkdec 5 0) ]} |}).
+    { vm_compute in Ho; inversion Ho; vm_compute; reflexivity. }
+    subst ro. cbn [ro_removes ro_updates ro_values]. rewrite map_to_list_empty, map_to_list_singleton.
+    split; [constructor|]. split; [constructor|]. split; [apply Permutation_refl|]. unfold small. vm_compute. reflexivity.
+Qed.
+
+Example m_round :
+  bok m_prev_bytes /\ lsenders_ok (fun _ => true) nv_cf 3 m_prev_bytes m_ss /\
+  (forall i rms ups vals, In (LCorrect i rms ups vals) m_ss -> map_Forall (fun _ x => small (sval_marshal x)) (oi_vals i)) /\
+  match outcome_step nv_h nv_cf 3 m_p2 (map fst m_tagged) with
+  | Ok next => o_aggs next !! (4, 2) = Some (SDec (mkdec 5 0))
+  | _ => False end /\
+  (length (List.filter (fun p : option sval * bool => match fst p with Some _ => negb (snd p) | None => false end)
+                       (accepted_vals m_tagged 4)) <= c_f nv_cf)%nat.
+Proof.
+  split; [apply Forall_forall; intros b Hb; vm_compute in Hb; repeat (destruct Hb as [<-|Hb]; [lia|]); destruct Hb|].
+  split; [exact m_senders_ok|]. split.
+  { intros i rms ups vals Hin. assert (i = m_inp) as -> by (destruct Hin as [H|[H|[H|[H|[]]]]]; try discriminate; inversion H; reflexivity).
+    apply map_Forall_singleton. unfold small. vm_compute. reflexivity. }
+  split; [vm_compute; reflexivity|vm_compute; lia].
+Qed.
